@@ -198,21 +198,16 @@ Fixpoint compile_disjs (before : bool) (vo : list pentry) (done : list (okey * o
       (vo3, {| pd_eqs := eqs; pd_last := (ref_sx (ok_ref k), paging_op before (ok_dir k), v) |} :: rest)
   end.
 
-(* get_limit *)
+(* get_limit: `LIMIT n` / ` OFFSET n` are written for a variable, or for a literal other than 0 *)
+Definition limit_sx (vo : list pentry) (o : operand) : list pentry * option sx :=
+  match o with
+  | OVar n => let '(vo', i) := add_param vo n false in (vo', Some (XParam i))
+  | OLit (VInt z) => (vo, if Z.eqb z 0 then None else Some (XInt z))
+  | OLit _ => (vo, None)
+  end.
 Definition compile_limit (vo : list pentry) (q : query) : list pentry * option sx * option sx :=
-  let '(vo1, lim) :=
-    match q_first q with
-    | OVar n => let '(vo', i) := add_param vo n false in (vo', Some (XParam i))
-    | OLit (VInt z) => (vo, if Z.eqb z 0 then None else Some (XInt z))
-    | OLit _ => (vo, None)
-    end in
-  let '(vo2, off) :=
-    match q_skip q with
-    | None => (vo1, None)
-    | Some (OVar n) => let '(vo', i) := add_param vo1 n false in (vo', Some (XParam i))
-    | Some (OLit (VInt z)) => (vo1, if Z.eqb z 0 then None else Some (XInt z))
-    | Some (OLit _) => (vo1, None)
-    end in
+  let '(vo1, lim) := limit_sx vo (q_first q) in
+  let '(vo2, off) := match q_skip q with None => (vo1, None) | Some o => limit_sx vo1 o end in
   (vo2, lim, off).
 
 Definition compile (m : emodel) (q : query) : list pentry * stmt :=
